@@ -415,7 +415,7 @@ func c07Round(c *Ctx, idx int) {
 func init() {
 	Register(&Property{
 		ID:            "C07",
-		Rule:          "worker built with the Go race detector; each round runs in a fresh process (lazy initialisation races once per process): ~220 expressions (forms that range Go maps, generated calls, core expressions, and builders that sort/reverse/merge/reslice arrays of the shared document or literals of the shared Expression; AST node types covered are counted) over 20 shared read-only documents (one of them holding foreign Go values - structs, pointers, typed slices, maps and arrays - and three being foreign values themselves: a struct, a slice of structs, a pointer to a struct; those four are never evaluated before the goroutines are released), plus ~220 directed forms (every ordering/reversing/merging function applied to every way of handing it an array of the shared document or a literal of the shared Expression without a copy), are first evaluated sequentially - except every third one, which stays cold so that whatever the library initialises lazily and process-wide is initialised under concurrency, and whose outcome alone is computed afterwards - then G goroutines (G in {2,8,16,32,64}, GOMAXPROCS in {2,4,16}) are released from a barrier and run a seeded mix of Search(text, sharedDoc), Compile(text)+Search and sharedExpression.Search(sharedDoc), reading every result completely; refuting events: any race-detector report (counted and de-duplicated by the driver from GORACE logs), any call whose canonical outcome differs from the sequential outcome of the same call, a changed AST fingerprint of a shared Expression, a changed shared document; non-trivial = rounds and (expression, document) pairs exercised concurrently; a shared document on which to_string fails (NaN, infinities, a malformed json.Number, failing marshalers, a late failing element) next to values it serialises, with 26 to_string forms (4 copies each)",
+		Rule:          "worker built with the Go race detector; each round runs in a fresh process (lazy initialisation races once per process): ~220 expressions (forms that range Go maps, generated calls, core expressions, and builders that sort/reverse/merge/reslice arrays of the shared document or literals of the shared Expression; AST node types covered are counted) over 20 shared read-only documents (one of them holding foreign Go values - structs, pointers, typed slices, maps and arrays - and three being foreign values themselves: a struct, a slice of structs, a pointer to a struct; those four are never evaluated before the goroutines are released), plus ~220 directed forms (every ordering/reversing/merging function applied to every way of handing it an array of the shared document or a literal of the shared Expression without a copy), are first evaluated sequentially - except every third one, which stays cold so that whatever the library initialises lazily and process-wide is initialised under concurrency, and whose outcome alone is computed afterwards - then G goroutines (G in {2,8,16,32,64}, GOMAXPROCS in {2,4,16}) are released from a barrier and run a seeded mix of Search(text, sharedDoc), Compile(text)+Search and sharedExpression.Search(sharedDoc), reading every result completely; refuting events: any race-detector report (counted and de-duplicated by the driver from GORACE logs), any call whose canonical outcome differs from the sequential outcome of the same call, a changed AST fingerprint of a shared Expression, a changed shared document; non-trivial = rounds and (expression, document) pairs exercised concurrently; a shared document on which to_string fails (NaN, infinities, a malformed json.Number, failing marshalers, a late failing element) next to values it serialises, with 26 to_string forms (4 copies each); the directed list includes arrays of 700 / 1300 numbers with and without a late offender through sort, sort_by, max, min, max_by, sum, map, element-wise consumers and object hand-overs into merge",
 		MinNontrivial: 100,
 		Streams: []Stream{
 			{Name: "rounds", N: c07Rounds, Run: c07Round},
